@@ -238,7 +238,11 @@ class IfWriteHandler(AbstractWriteHandler):
 
         exits = v.out_edges()
 
-        self.decompiler.source_map_add_opcode(op.offset)
+        if include_newline_in_header:
+            self.decompiler.source_map_add_opcode(op.offset)
+        else:
+            # `} elseif (...)` continues the line of the closing brace, after one space.
+            self.decompiler.source_map_add_opcode_in_current_line(op.offset, 1)
         opt_space = " " if not include_newline_in_header else ""
         not_str = "" if not m.is_not else " not"
         self.decompiler.write_stmnt(
